@@ -52,28 +52,44 @@ def fromBasis (basis : QMat) : M QMat := hnfReduce basis
 
 def padTo (n : Nat) (l : List Rat) : List Rat := l ++ List.replicate (n - l.length) 0
 
-/-- rows 1, θ, θ², … (`cur = &cur * theta`), the loop of `singly_gen` -/
-def powerRows (f : List Int) : Nat → List Rat → M QMat
+/-- rows 1, α, α², … (`cur = &cur * theta`, α = `theta.expr`), the loop of `singly_gen`: every
+iteration stores `cur` and then multiplies, also after the last row (so a failing assertion of
+`mul_with_mod` panics even when the product is not needed, e.g. for deg f = 1 and α = θ) -/
+def powerRowsOf (f : List Int) (alpha : List Rat) : Nat → List Rat → M QMat
   | 0, _ => .ok []
   | k + 1, cur => do
-    let next ← (NTV.Alg.mul f cur [0, 1]).mapError (fun e => "panic " ++ e)
-    let rest ← powerRows f k next
+    let next ← (NTV.Alg.mul f cur alpha).mapError (fun e => "panic " ++ e)
+    let rest ← powerRowsOf f alpha k next
     pure (padTo (f.length - 1) cur :: rest)
 
-/-- `Order::singly_gen(theta)` = Z[θ] -/
-def singlyGen (f : List Int) : M QMat := do
-  let deg := degU f
-  let rows ← powerRows f deg [1]
-  hnfReduce rows
+/-- the loop of `singly_gen` for α = θ (`Algebraic::new(f)`, expression `x`) -/
+def powerRows (f : List Int) : Nat → List Rat → M QMat := powerRowsOf f [0, 1]
+
+/-- `Order::singly_gen(theta)` = Z[α] for an arbitrary element `theta.expr = alpha` of ℚ[x]/(f).
+For the zero `min_poly` (`deg = usize::MAX`) the first `vec![…; deg]` is a `capacity overflow`. -/
+def singlyGenOf (f : List Int) (alpha : List Rat) : M QMat := do
+  if f.isEmpty then .error "panic overflow"
+  else
+    let deg := degU f
+    let rows ← powerRowsOf f alpha deg [1]
+    hnfReduce rows
+
+/-- `Order::singly_gen(&Algebraic::new(f))` = Z[θ] -/
+def singlyGen (f : List Int) : M QMat := singlyGenOf f [0, 1]
 
 def identityQ (n : Nat) : QMat := (List.range n).map (fun i => (List.range n).map (fun j => if i = j then 1 else 0))
 
-/-- `trivial_order_monic` -/
-def trivialOrderMonic (f : List Int) : M QMat := hnfReduce (identityQ (degU f))
+/-- `trivial_order_monic` (zero `min_poly`: `capacity overflow` of `vec![…; usize::MAX]`) -/
+def trivialOrderMonic (f : List Int) : M QMat :=
+  if f.isEmpty then .error "panic overflow" else hnfReduce (identityQ (degU f))
 
-/-- `non_monic_initial_order`: Z[θ] ∩ Z[1/θ] -/
+/-- `non_monic_initial_order`: Z[θ] ∩ Z[1/θ]. `basis[0][0] = 1` is an index panic for a constant
+`min_poly` (`deg = 0`, empty `basis`); zero `min_poly`: `capacity overflow`. -/
 def nonMonicInitialOrder (f : List Int) : M QMat :=
   let deg := degU f
+  if f.isEmpty then .error "panic overflow"
+  else if deg = 0 then .error "panic index"
+  else
   let basis : QMat := (List.range deg).map (fun i => (List.range deg).map (fun j =>
     if i = 0 then (if j = 0 then 1 else 0)
     else if 1 ≤ j ∧ j ≤ i then ((coefAt f (deg - (i - j)) : Int) : Rat) else 0))
@@ -81,7 +97,9 @@ def nonMonicInitialOrder (f : List Int) : M QMat :=
 
 def ofExcept {α : Type} (e : Except String α) : M α := e
 
-/-- `discriminant_with_min_poly` -/
+/-- `discriminant_with_min_poly`: determinant, then `discriminant(min_poly)` (asserts a non-zero
+polynomial), then `lc.pow(2 * (deg - 1))` — a `usize` subtraction, so a constant `min_poly`
+(`deg = 0`) is an `overflow` panic — and the integrality assertion -/
 def discriminantOrd (basis : QMat) (f : List Int) : M Int := do
   let deg := degU f
   let det ← NTV.LinAlg.determinant basis
@@ -89,17 +107,22 @@ def discriminantOrd (basis : QMat) (f : List Int) : M Int := do
     | .ok (d, _) => .ok d
     | .error e => .error ("panic " ++ e)
   let lcf := coefAt f deg
+  if deg = 0 then .error "panic overflow"
+  else
   let den : Rat := ((lcf ^ (2 * (deg - 1)) : Int) : Rat)
   if den = 0 then .error "panic other"
   else
     let value := (disc : Rat) * det * det / den
     if isInteger value then .ok (toInteger value) else .error "panic assert"
 
-/-- `order::index(a, b)` = (a : b) -/
+/-- `order::index(a, b)` = (a : b): `det b / det a` (no containment test), explicit `panic!` when the
+quotient is not an integer. A zero `det a` (impossible for a stored order) panics inside the
+`Ratio` division: `0 / 0` divides the numerator by the zero gcd (`div0`), `x / 0` reaches
+`Ratio::new` with a zero denominator (`other`). -/
 def index (a b : QMat) : M Int := do
   let db ← NTV.LinAlg.determinant b
   let da ← NTV.LinAlg.determinant a
-  if da = 0 then .error "panic other"
+  if da = 0 then (if db = 0 then .error "panic div0" else .error "panic other")
   else
     let quot := db / da
     if isInteger quot then .ok (toInteger quot) else .error "panic other"
@@ -133,7 +156,11 @@ def union (a b : QMat) : M QMat := do
         hnfReduce neword
     | _, _ => .error "inconclusive fuel"
 
-/-- `solve_linear_system(&self.basis, &b).expect(..)` -/
+/-- `solve_linear_system(&self.basis, &b).expect("O is not linearly independent")`. The `Err` branch
+cannot be reached through the public API (a stored basis always went through `hnf_reduce`, which
+index-panics on a singular matrix), so its rendering has never been compared with the code: the kind
+follows the convention for `.expect()` (`unwrap`), although the message itself contains neither
+`unwrap` nor `expect` and `common::classify` would print `other`. -/
 def solveExpect (basis : QMat) (b : List Rat) : M (List Rat) :=
   match NTV.LinAlg.solve basis b with
   | .ok x => .ok x
@@ -205,8 +232,8 @@ def tinv (t : Table) (a : List Int) : M (List Int × Int) := do
     | .ok m => .ok m
     | .error e => if e == NTV.LinAlg.errNotInvertible then .error "panic unwrap" else .error e
   let n := t.length
-  let row0 ← idx invm 0
   let ans ← tabulate n (fun i => do
+    let row0 ← idx invm 0
     let e ← idx row0 i
     pure (toInteger (e * (norm : Rat))))
   pure (ans, norm)
